@@ -107,3 +107,11 @@ package smgp
 //@   props C02,C03
 //@   ensures [C03 short] len(d) < 12 ==> err != nil
 //@   ensures [C02 fields] len(d) >= 12 ==> err == nil && int(h.TotalLength) == dbe32(take(content(d), 4)) && int(h.CommandID) == dbe32(take(drop(content(d), 4), 4)) && int(h.SequenceID) == dbe32(take(drop(content(d), 8), 4))
+
+// Add: after Add the container holds the option under its tag. For a nil receiver the method allocates a map that only
+// its local copy of the receiver sees, so the option is lost (known finding D18: a value receiver cannot populate a nil
+// map; repairing it changes the method set). Outside that case the clause is proved.
+//@ func (o Options) Add
+//@   props C16,C03
+//@   modifies o
+//@   ensures [C16 added] mapdom(o, int(opt.tag))
